@@ -33,6 +33,9 @@ def load():
     _loaded = True
 
 
+LARK_MEMO = {}     # the harness's parser cache; procstate puts the lazily built lexer state of these objects back between executions
+
+
 def memoise_lark():
     """Make ``lark.Lark(grammar, tree_class=...)`` cheap (80 ms -> 0) by caching one parser per
     tree class.  The check-then-create logic of CELParser.__init__ stays the library's own."""
@@ -42,7 +45,7 @@ def memoise_lark():
     real = cp.Lark
     if getattr(real, "_verif_memo", False):
         return
-    cache = {}
+    cache = LARK_MEMO
 
     def Lark(grammar, **kw):
         key = (grammar, kw.get("tree_class"), tuple(sorted((k, repr(v)) for k, v in kw.items() if k not in ("tree_class", "lexer_callbacks"))))
